@@ -501,4 +501,18 @@ def clientFindMissing (backend : List Digest → Except Err (List Digest)) (ds :
     Except Err (List Digest) :=
   findMissing backend none (ds.map fun d => ⟨false, d⟩)
 
+/-- `FindMissing` of the client for a set that spans several instance names / digest
+functions: the digests are partitioned (`groups`), one `FindMissingBlobs` call is issued per
+partition, the answers are united; the first failing call fails the whole operation. -/
+def clientFindMissingP (backend : List Digest → Except Err (List Digest)) :
+    List (List Digest) → Except Err (List Digest)
+  | [] => .ok []
+  | g :: gs =>
+    match clientFindMissing backend g with
+    | .error e => .error e
+    | .ok m =>
+      match clientFindMissingP backend gs with
+      | .error e => .error e
+      | .ok ms => .ok (m ++ ms)
+
 end BB.ByteStream
